@@ -27,7 +27,8 @@ class Layout:
     last     : bytes before the end comment on its line (last partial content line)
     """
 
-    def __init__(self, pre, indent, ncomment, tagline, tagpad, attrs, trail0, lines, last, name='blk'):
+    def __init__(self, pre, indent, ncomment, tagline, tagpad, attrs, trail0, lines, last, name='blk',
+                 base_line=1, base_off=0, tail=True):
         self.pre = pre
         self.indent = indent
         self.ncomment = ncomment
@@ -38,12 +39,16 @@ class Layout:
         self.lines = [tuple(l) for l in lines]
         self.last = tuple(last)
         self.name = name
+        self.base_line = base_line
+        self.base_off = base_off
+        self.tail = tail
         self._build()
 
     def _build(self):
         out = []
-        line = 1
+        line = self.base_line
         col = 1
+        base = self.base_off
 
         def emit(bs):
             nonlocal line, col
@@ -57,7 +62,7 @@ class Layout:
         for i in range(self.pre):
             emit(b'code%d();\n' % i)
         emit(b' ' * self.indent)
-        self.c_start = (len(out), line, col)
+        self.c_start = (base + len(out), line, col)
         emit(b'/*')
         tag = b'<block name="%s"%s>' % (self.name.encode(), self.attrs.encode() if isinstance(self.attrs, str) else self.attrs)
         for k in range(self.ncomment):
@@ -65,14 +70,14 @@ class Layout:
                 emit(b'\n' + b' ' * self.indent + b' *')
             if k == self.tagline:
                 emit(b' ' * (1 + self.tagpad))
-                self.tag_lt = (len(out), line, col)
+                self.tag_lt = (base + len(out), line, col)
                 emit(tag)
-                self.tag_gt = (len(out) - 1, line, col - 1)
+                self.tag_gt = (base + len(out) - 1, line, col - 1)
             else:
                 emit(b' text %d' % k)
         emit(b' */')
-        self.c_end = (len(out), line, col)
-        self.content_start = (len(out), line, col)
+        self.c_end = (base + len(out), line, col)
+        self.content_start = (base + len(out), line, col)
         # content
         self.content_lines = []      # (line number, start col of the line's first byte, bytes)
         self.content_lines.append((line, col, self.trail0))
@@ -84,20 +89,23 @@ class Layout:
         emit(b'\n')
         self.content_lines.append((line, col, self.last))
         emit(self.last)
-        self.content_end = (len(out), line, col)
-        self.e_start = (len(out), line, col)
+        self.content_end = (base + len(out), line, col)
+        self.e_start = (base + len(out), line, col)
         emit(b'/* </block> */')
-        self.e_end = (len(out), line, col)
+        self.e_end = (base + len(out), line, col)
         emit(b'\n')
-        emit(b'tail();\n')
+        if self.tail:
+            emit(b'tail();\n')
         self.src = tuple(out)
+        self.end_line = line
+        self.end_off = base + len(out)
 
     def comments(self, I, prog):
         """The two `Comment` values tree-sitter would deliver, text normalised by real MIR."""
         f_norm = prog.find_fn('c_style_multiline_comment_processor')
         res = []
         for (s, e) in ((self.c_start, self.c_end), (self.e_start, self.e_end)):
-            raw = SStr(self.src[s[0]:e[0]], I.new_alloc(), 0)
+            raw = SStr(self.src[s[0] - self.base_off:e[0] - self.base_off], I.new_alloc(), 0)
             text = I.call_fn(f_norm, [raw])
             res.append(mk_struct(prog, 'Comment',
                                  position_range=Struct('Range', (position(prog, s[1], s[2]), position(prog, e[1], e[2]))),
@@ -150,10 +158,15 @@ def install_tag_parser_stub(I, prog):
 
 
 def parse_layout_blocks(I, prog, lay):
-    """Run the crate's block pairing on the layout's comments; returns the Result value."""
+    """Run the crate's block pairing on the layout's comments; returns the Result value.
+    `lay` may be a list of consecutive layouts of one file."""
     install_tag_parser_stub(I, prog)
     f = prog.find_fn('parse_blocks_from_comments')
-    return I.call_fn(f, [ListIter(lay.comments(I, prog))])
+    lays = lay if isinstance(lay, (list, tuple)) else [lay]
+    cs = []
+    for l in lays:
+        cs.extend(l.comments(I, prog))
+    return I.call_fn(f, [ListIter(cs)])
 
 
 def context_for(I, prog, lay, blocks, path=b'f.js'):
